@@ -13,7 +13,7 @@ class SPEC:
             "at run time) x {IPv4, IPv6 listener when the host has ::1}; sessions of a template (1..12 registry elements of supported "
             "types, all three registries) followed by data messages of 1..n records with values from the C15 generator - variable-length "
             "boundaries 0/254/255/256 always in the mix, one maximal-payload record per tcp session, extreme numeric and float patterns. "
-            "Sends are lock-step (next message only after the previous one was delivered), except for one BURST in about a quarter of the "
+            "In three sessions out of ten the template is sent a second time mid-session, followed by more data. Sends are lock-step (next message only after the previous one was delivered), except for one BURST in about a quarter of the "
             "sessions (at least half of the dtls ones): 3..6 small data sets of 1..3 records with distinct values, most of them of one "
             "size, handed to SendSet back-to-back while nobody reads GetMsgChan(); only then are the deliveries collected. What GetMsgChan() "
             "delivers is compared with the model's prediction and judged by Ipfix chkE2E directly against what was handed to SendSet "
@@ -104,6 +104,11 @@ def session(rng, sup, transport, fam, limit, with_burst=False):
         op = "e2e send %s d %d %s" % (rng.choice(X.PATHS), tid, ";".join(recs))
         if len(op) // 2 < limit:
             ops.append(op)
+    if rng.random() < 0.3:
+        # the application sends its template AGAIN in the middle of the session (an exporter may do that on any transport,
+        # and must over UDP): it has to go out and be delivered like the first time, and the data after it as well
+        ops.append("e2e send %s t %d %d@%s" % (rng.choice(X.PATHS), tid, tid, X.elems(rng, ies, False)))
+        ops.append("e2e send %s d %d %d@%s" % (rng.choice(X.PATHS), tid, tid, X.elems(rng, ies, True, maxlen=40)))
     if with_burst:
         b = burst(rng, ies, tid)
         if b is not None:
